@@ -164,6 +164,8 @@ mut("C06-subset-bit-from-mask-index", "C06", "subset-enum", ("src/board/piece.rs
 mut("C06-subset-loop-from-one", "C06", "subset-enum", ("src/board/piece.rs", "        for i in 0..bits {", "        for i in 1..bits {"))
 mut("C10-is-running-always-true", ["C10", "C09"], "is_running", (S, "        self.running.load(Ordering::Relaxed)\n", "        let _ = self.running.load(Ordering::Relaxed);\n        true\n"))
 
+mut("C09-budget-from-opponents-clock", "C09", "time-budget", (S, "            Color::White => {\n                self.limits.white_time.unwrap_or(0) / 20", "            Color::White => {\n                self.limits.black_time.unwrap_or(0) / 20"))
+
 if __name__ == "__main__":
     missing = []
     for m in M:
